@@ -87,17 +87,36 @@ func runC18(w *W) {
 		if prev == nil {
 			prevXiu = -1
 		}
+		// the moments of the day: the 13 slot entries, and on a term day the term's instant, the seconds next to it and
+		// both ends of its minute (where comparisons at minute or day precision would show)
+		type mom struct {
+			t       hms
+			dayAttr bool
+		}
+		var moms []mom
 		for k := 0; k <= 12; k++ {
 			h := 0
 			if k > 0 {
 				h = 2*k - 1
 			}
-			l := lunarP(d.At(h, 0, 0), d.J)
-			wit := fmt.Sprintf("%s %02d:00", d.Ymd, h)
+			moms = append(moms, mom{hms{h, 0, 0}, k == 0 || k == 12})
+		}
+		for _, tm := range termsOf(d.L()) {
+			if tm.J == d.J {
+				for _, sec := range []int{tm.Sec - tm.Sec%60, tm.Sec - 1, tm.Sec, tm.Sec + 1, tm.Sec - tm.Sec%60 + 59} {
+					if sec >= 0 && sec < 86400 {
+						moms = append(moms, mom{hms{sec / 3600, sec / 60 % 60, sec % 60}, true})
+					}
+				}
+			}
+		}
+		for k, mo := range moms {
+			l := lunarP(d.At(mo.t.h, mo.t.m, mo.t.s), d.J)
+			wit := fmt.Sprintf("%s %02d:%02d:%02d", d.Ymd, mo.t.h, mo.t.m, mo.t.s)
 			w.R.Evals++
 			dg, dz := l.GetDayGanIndex(), l.GetDayZhiIndex()
 			dgz := l.GetDayInGanZhi()
-			if k == 0 || k == 12 {
+			if mo.dayAttr {
 				// ---- day attributes (time independent; evaluated at both ends of the day)
 				fd("dayStem", fmt.Sprint(dg), js(l.GetDayPositionXi(), l.GetDayPositionXiDesc(), l.GetDayPositionYangGui(), l.GetDayPositionYangGuiDesc(), l.GetDayPositionYinGui(), l.GetDayPositionYinGuiDesc(),
 					l.GetDayPositionFu(), l.GetDayPositionFuDesc(), l.GetDayPositionFuBySect(1), l.GetDayPositionFuDescBySect(1), l.GetDayPositionCai(), l.GetDayPositionCaiDesc(), l.GetPengZuGan(), l.GetDayChongGan(), l.GetDayChongGanTie(), l.GetDayGan()), wit)
